@@ -3,6 +3,7 @@
 from __future__ import annotations
 
 import ast
+import re
 
 from ..cfg import cfg_of
 from ..model import AnalysisError, call_name, calls_in, dotted, norm, walk_no_nested
@@ -374,7 +375,9 @@ def check_blocking_waits(ctx):
         f = repo.method("HsmsProtocol", fname, inherited=False)
         ctx.touch(f)
         q = f.qualname
-        cfg = cfg_of(f.node)
+        from .. import normal
+
+        cfg = cfg_of(normal.normalised(ctx, f))  # a local alias of the buffer is still the buffer
         n_sites = 0
         for n in cfg.real_nodes():
             for c in n.calls:
@@ -385,18 +388,18 @@ def check_blocking_waits(ctx):
                 size = c.args[0] if c.args else None
                 nonblocking = False
                 if size is not None and isinstance(size, ast.Constant):
-                    for t, v in cfg.dominating_conditions(n):
-                        # while len(buf) > K  with K >= size-1   /  >= size
-                        if isinstance(t, ast.Compare) and len(t.ops) == 1 and norm(t.left) == "len(self._receive_buffer)" and isinstance(t.comparators[0], ast.Constant) and v:
-                            k = t.comparators[0].value
-                            if (isinstance(t.ops[0], ast.Gt) and k >= size.value - 1) or (isinstance(t.ops[0], ast.GtE) and k >= size.value):
-                                nonblocking = True
+                    # a dominating `at least size bytes are buffered` (any spelling) makes the wait return at once
+                    for t, pol in cnd.facts(cfg, n):
+                        m = re.match(r"^len\(self\._receive_buffer\) < (\d+)$", t)
+                        if m and not pol and int(m.group(1)) >= size.value:
+                            nonblocking = True
+                is_peek = any(k.arg == "peek" and isinstance(k.value, ast.Constant) and k.value.value is True for k in c.keywords) or (len(c.args) > 1 and isinstance(c.args[1], ast.Constant) and c.args[1].value is True)
                 ok = nonblocking or not unbounded or woken_by_stop
                 ctx.ob("C09.W1", q, ok,
                        (f"`{norm(c)}` cannot block: a dominating test guarantees the bytes are there" if nonblocking else f"`{norm(c)}` is bounded or woken by the stop path") if ok else
                        f"`{norm(c)}` blocks without bound on the thread that also serves the send queue and is joined by stop(); its only waker is ByteQueue.{'/'.join(notifiers)} "
                        "(peer bytes) - when the peer closes inside a frame, the Separate.req queued by _on_disconnecting is never sent, BlockSendInfo.wait() never returns and the close sequence never finishes",
-                       key=norm(n.ast), where=f.where, notifiers=notifiers, stop_path_calls=sorted(stop_calls))
+                       key=("peek " if is_peek else "consume ") + ("constant-size" if isinstance(size, ast.Constant) else "frame-size"), where=f.where, notifiers=notifiers, stop_path_calls=sorted(stop_calls))
         if n_sites == 0:
             ctx.ob("C09.W1", q, True, "the framing loop contains no blocking ByteQueue wait", key="no-blocking-wait", where=f.where)
 
